@@ -35,7 +35,7 @@ DirChoices == {[none |-> TRUE, abs |-> FALSE, p |-> <<>>], [none |-> FALSE, abs 
 FileChoices == {A(Root \o <<"src", "a.c">>), R(<<"src", "a.c">>), R(<<"..", "src", "b.c">>), R(<<"gen.c">>), R(<<"o.c">>),
                 R(<<".", "src", "..", "src", "a.c">>), A(Root \o <<"src", "missing.c">>), R(<<"src", "a.o">>), R(<<"a.c">>)}
 IncChoices == {<<>>, <<A(Append(Root, "inc"))>>, <<R(<<"gen">>)>>, <<R(<<"..", "inc">>)>>, <<R(<<"inc">>), R(<<"gen">>)>>,
-               <<R(<<".">>)>>}
+               <<R(<<".">>)>>, <<R(<<".", "..", "inc">>)>>, <<R(<<".", "inc">>)>>}     \* ./../inc and ./inc
 CmdChoices == {"ok", "empty", "blank"}   \* blank: a command string of white space only
 
 VARIABLES ents, done
